@@ -112,6 +112,46 @@ func ruleTailFrame(c *Ctx) {
 			okAll = false
 		}
 	}
+	// the reused frame slides back to where the running frame started: its final Base is the Base it had
+	baseF := p.Field("lua", "callFrame", "Base")
+	var baseStores []*ssa.Store
+	allInstrs(h, func(in ssa.Instruction) {
+		if st, ok := isFieldStore(in, baseF); ok && g.Live(in) {
+			if _, lit := st.Addr.(*ssa.FieldAddr).X.(*ssa.Alloc); lit {
+				return // the frame literal of the host arm
+			}
+			baseStores = append(baseStores, st)
+		}
+	})
+	okBase := false
+	if len(baseStores) >= 2 {
+		// the last store (dominated by all others) restores a value loaded from cf.Base before any store
+		var last *ssa.Store
+		for _, s1 := range baseStores {
+			isLast := true
+			for _, s2 := range baseStores {
+				if s1 != s2 && !g.Dominates(s2, s1) {
+					isLast = false
+				}
+			}
+			if isLast {
+				last = s1
+			}
+		}
+		if last != nil {
+			if ld, ok := last.Val.(*ssa.UnOp); ok {
+				if _, isBase := loadsField(ld, baseF); isBase {
+					okBase = true
+					for _, s2 := range baseStores {
+						if !g.Dominates(ld, s2) {
+							okBase = false
+						}
+					}
+				}
+			}
+		}
+	}
+	c.check(okBase, R, "TAILCALL:lua-arm:slides-to-old-Base", p.pos(h.Pos()), "after the arguments were moved down the frame's Base is the Base it had before the tail call", "the reused frame does not slide back to the running frame's own Base (for a vararg caller LocalBase-1 is past its argument block): every tail call from a vararg function leaves registers behind and a long chain ends in 'registry overflow'")
 	c.check(okAll, R, "TAILCALL:lua-arm:frame-reused", p.pos(h.Pos()), "Fn, Pc, Base, LocalBase and NArgs of the running frame are overwritten in place", fmt.Sprintf("the Lua arm does not rewrite the running frame in place (rewritten: %v)", sortedKeys(rewritten)))
 
 	// callGFunction
@@ -137,7 +177,11 @@ func ruleTailFrame(c *Ctx) {
 		})
 		okRem := false
 		for _, cl := range callsTo(fn, remove) {
-			for _, cd := range gg.CondsAtInstr(cl) {
+			conds := gg.CondsAtInstr(cl)
+			if len(conds) != 1 {
+				continue // the removal must depend on the tailcall flag alone
+			}
+			for _, cd := range conds {
 				if cd.V == ssa.Value(tailParam) && cd.Sense && host != nil && gg.Dominates(host, cl) {
 					// the test itself must dominate every return
 					domAll := true
